@@ -85,6 +85,7 @@ static inline void _urcu_memb_read_lock_update(unsigned long tmp)
 	if (caa_likely(!(tmp & URCU_GP_CTR_NEST_MASK))) {
 		unsigned long *pgctr = &urcu_memb_gp.ctr;
 		unsigned long gctr = uatomic_load(pgctr);
+		urcu_verif_point(URCU_VP_READ_LOCK_MID, ctr);
 
 		/* Paired with following mb slave. */
 		cmm_annotate_mem_acquire(pgctr);
@@ -134,6 +135,7 @@ static inline void _urcu_memb_read_unlock_update_and_wakeup(unsigned long tmp)
 		cmm_annotate_mem_release(ctr);
 		uatomic_store(ctr, tmp - URCU_GP_COUNT);
 		urcu_memb_smp_mb_slave();
+		urcu_verif_point(URCU_VP_READ_UNLOCK_PRE_WAKE, ctr);
 		urcu_common_wake_up_gp(&urcu_memb_gp);
 	} else {
 		uatomic_store(ctr, tmp - URCU_GP_COUNT);
